@@ -8,7 +8,7 @@ use aldrin::low_level::{
     UnboundSender, UnclaimedReceiver, UnclaimedSender,
 };
 use aldrin::{BusListener, Discoverer, Error, Handle, Lifetime, LifetimeId, LifetimeScope, Object};
-use aldrin_core::{BusListenerScope, ObjectId, ObjectUuid, ServiceId, ServiceUuid, Value};
+use aldrin_core::{BusListenerScope, ObjectId, ObjectUuid, ServiceId, ServiceUuid};
 use futures_channel::mpsc;
 use futures_core::Stream;
 use std::cell::{Cell, RefCell};
